@@ -10,7 +10,7 @@
    - Blocks / Sequences are built by append: nil elements are skipped, and Sequence() returns nil for a
      sequence with no actions, so such sequences disappear from the cloned block; the Actions slices of
      checks groups and sequences are made with the same length and keep nil elements;
-   - every result slice is made (never nil) except Attempts: cloneAttempts returns nil for len = 0;
+   - every result slice is made (never nil), Meta included, except Attempts: cloneAttempts returns nil for len = 0;
    - the call at the top of the clone call stack (callNum = 1) runs clone.Secure over the finished clone
      unless keep-secrets is set: requests and attempt responses are scrubbed in place.
 
@@ -26,6 +26,13 @@ Record opts := { keep_secrets : bool; keep_state : bool }.
 Definition o_default : opts := {| keep_secrets := false; keep_state := false |}.
 
 Definition uid0 : uid := {| u_ix := 0%N; u_v7 := false |}.
+
+(* Meta: meta := make([]byte, len(p.Meta)); copy(meta, p.Meta) - the clone's Meta is never nil: a nil Meta
+   comes back as the empty non-nil slice, every other value as itself (a new array with the same bytes).
+   In the labelled terms of the C18 harness a nil Meta is (true, true, 0, 0), the empty non-nil one
+   (false, true, 0, 0), a non-empty one (false, true, 0, index >= 1). *)
+Definition empty_bytes : blob := {| bl_nil := false; bl_enc := true; bl_ty := 0%N; bl_ix := 0%N |}.
+Definition meta_val (b : blob) : blob := if bl_nil b then empty_bytes else b.
 
 (* a nil slice ranges like an empty one *)
 Definition olist {A} (l : option (list A)) : list A :=
@@ -138,7 +145,7 @@ Section Model.
     {| p_id := if st then p_id p else uid0;
        p_group := p_group p;
        p_name := p_name p; p_descr := p_descr p;
-       p_meta := p_meta p;
+       p_meta := meta_val (p_meta p);
        p_bypass := option_map (clone_checks_in o) (p_bypass p);
        p_pre := option_map (clone_checks_in o) (p_pre p);
        p_cont := option_map (clone_checks_in o) (p_cont p);
